@@ -360,7 +360,7 @@ class World:
 def gen_update(w: World, r):
     """Pick an (offset, segment, geometry-name) relative to a random item."""
     b = w.st.status_block
-    kind = r.choice(["full", "aligned", "second-byte", "first-byte", "adjacent-before", "adjacent-after", "foreign-bits", "noop", "random", "random39", "cover", "full-mutated"])
+    kind = r.choice(["full", "aligned", "second-byte", "first-byte", "adjacent-before", "adjacent-after", "foreign-bits", "noop", "random", "random39", "cover", "full-mutated", "units-flip"])
     tags = list(w.refs)
     ref = w.refs[r.choice(tags)]
     if kind == "second-byte" or kind == "first-byte":
@@ -370,6 +370,16 @@ def gen_update(w: World, r):
     rb = lambda n: bytes(r.randrange(256) for _ in range(n))  # noqa
     if kind == "full":
         return 0, rb(1024), kind
+    if kind == "units-flip":
+        # a full refresh in which only the temperature-units field differs: temperature items keep
+        # their stored reading and must stay silent, the units item alone notifies
+        u = w.refs.get("TempUnits")
+        if u is None:
+            return 0, rb(1024), "full"
+        m = bytearray(b)
+        word = int.from_bytes(m[u.pos : u.pos + u.width], "big") ^ (1 << u.shift)
+        m[u.pos : u.pos + u.width] = word.to_bytes(u.width, "big")
+        return 0, bytes(m), kind
     if kind == "full-mutated":
         m = bytearray(b)
         for _ in range(r.randrange(1, 30)):
@@ -479,7 +489,7 @@ def main(tier, seed):
     res = run_shards("checks.c03", "shard", [{"combos": ps[i::n], "seed": seed, "nops": nops} for i in range(n) if ps[i::n]], timeout=3000)
     run.absorb(res)
     g = run.sets.get("geometries", set())
-    for need in ("second-byte", "first-byte", "foreign-bits", "noop", "adjacent-before", "adjacent-after", "full", "aligned"):
+    for need in ("second-byte", "first-byte", "foreign-bits", "noop", "adjacent-before", "adjacent-after", "full", "aligned", "units-flip", "nested", "reentrant-observer-ops"):
         run.need(need in g, f"update geometry {need} never exercised")
     run.need(run.counters.get("notifications_matched", 0) > 1000, "too few notifications observed")
     run.need(run.counters.get("nested_updates", 0) > 100, "too few re-entrant updates")
